@@ -211,13 +211,16 @@ func TestTableHTTPStatus(t *testing.T) {
 	}
 	// 3b. one meta object naming the same header under two spellings: the values of both accumulate
 	for _, pair := range [][2]string{{"Set-Cookie", "set-cookie"}, {"SET-COOKIE", "Set-Cookie"}, {"X-Test", "x-test"}, {"x-TEST", "X-test"}} {
-		meta := fmt.Sprintf(`{"header":{%q:["d1"],%q:["d2"]}}`, pair[0], pair[1])
-		run(ScenarioCfg{}, Rec{"kind": "hdrdup", "cname": textproto.CanonicalMIMEHeaderKey(pair[0]), "on": "call", "method": "POST"},
-			httpCase{method: "POST", path: "/api/m/act", final: [3]string{"ok", "", meta}})
-		run(ScenarioCfg{}, Rec{"kind": "hdrdup", "cname": textproto.CanonicalMIMEHeaderKey(pair[0]), "on": "access", "method": "GET"},
-			httpCase{method: "GET", path: "/api/m", access: [3]string{"ok", "", meta}})
-		run(ScenarioCfg{HeaderAuth: "auth.login"}, Rec{"kind": "hdrdup", "cname": textproto.CanonicalMIMEHeaderKey(pair[0]), "on": "auth", "method": "GET"},
-			httpCase{method: "GET", path: "/api/m", auth: [3]string{"ok", "", meta}})
+		for _, stat := range []string{"", `,"status":404`} {
+			meta := fmt.Sprintf(`{"header":{%q:["d1"],%q:["d2"]}%s}`, pair[0], pair[1], stat)
+			cn := textproto.CanonicalMIMEHeaderKey(pair[0])
+			run(ScenarioCfg{}, Rec{"kind": "hdrdup", "cname": cn, "direct": stat != "", "on": "call", "method": "POST"},
+				httpCase{method: "POST", path: "/api/m/act", final: [3]string{"ok", "", meta}})
+			run(ScenarioCfg{}, Rec{"kind": "hdrdup", "cname": cn, "direct": stat != "", "on": "access", "method": "GET"},
+				httpCase{method: "GET", path: "/api/m", access: [3]string{"ok", "", meta}})
+			run(ScenarioCfg{HeaderAuth: "auth.login"}, Rec{"kind": "hdrdup", "cname": cn, "direct": stat != "", "on": "auth", "method": "GET"},
+				httpCase{method: "GET", path: "/api/m", auth: [3]string{"ok", "", meta}})
+		}
 	}
 	// 4. CORS: origin allow-list on GET / POST / OPTIONS, with and without header auth
 	for _, origin := range []string{"", "EMPTY", "null", "NULL", "http://a", "HTTP://A", "http://b", "http://a.evil", "http://", "http://a:80", "http://a/", " http://a", "http://c"} {
